@@ -256,6 +256,12 @@ class Verdict:
         self.notes = []
         self.cov = {}
         self.assumptions = []
+        # replays of earlier runs of this property are stale
+        rd = os.path.join(VERIF, "replays")
+        if os.path.isdir(rd):
+            for f in os.listdir(rd):
+                if f.startswith(prop + "-") and f.endswith(".json"):
+                    os.remove(os.path.join(rd, f))
 
     def violation(self, replay, no_input=False):
         self.violations.append((replay, no_input))
